@@ -386,7 +386,7 @@ def run_crash(ctx, drv, n, ops, seed, torn="", depth=1, shards=8, par=2, walname
             args += ["-walname"]
         if depth > 1:
             args += ["-deep-every", deep_every]
-        rc, o = ctx.drv(drv, args, timeout=3400)
+        rc, o = ctx.drv(drv, args, timeout=3400 if ctx.quick else 14000)
         summ = None
         sp = os.path.join(out, "summary.json")
         if rc == 0 and os.path.exists(sp):
@@ -515,8 +515,8 @@ def crash_cov(ctx, stats, rule):
 def c03(ctx):
     drv = ctx.build()
     models.run_family(ctx, "crash")
-    n, ops = (16, 12) if ctx.quick else (160, 16)
-    outs = run_crash(ctx, drv, n, ops, ctx.seed, depth=2, deep_every=30 if ctx.quick else 4, walname=True)
+    n, ops = (16, 12) if ctx.quick else (64, 14)
+    outs = run_crash(ctx, drv, n, ops, ctx.seed, depth=2, deep_every=30 if ctx.quick else 8, walname=True)
     stats = judge_crash(ctx, outs, "c03", "c03")
     crash_cov(ctx, stats, "steered multi-key workloads with tiny thresholds (flush, cascaded compaction, reopen, Close); "
                           "a crash image is the directory copied while the engine is held before a file-system "
@@ -532,8 +532,8 @@ def c03(ctx):
 def c04(ctx):
     drv = ctx.build()
     models.run_family(ctx, "crash")
-    n, ops = (16, 12) if ctx.quick else (160, 16)
-    outs = run_crash(ctx, drv, n, ops, ctx.seed + 50, depth=2, deep_every=20 if ctx.quick else 4)
+    n, ops = (16, 12) if ctx.quick else (64, 14)
+    outs = run_crash(ctx, drv, n, ops, ctx.seed + 50, depth=2, deep_every=20 if ctx.quick else 8)
     stats = judge_crash(ctx, outs, "c04", "c04")
     crash_cov(ctx, stats, "the C03 image enumeration on multi-key transactions (1-3 keys, rotation on every commit in "
                           "part of the configurations); judged with AtomicInflight=TRUE; a history is attributed to C04 "
@@ -545,9 +545,9 @@ def c04(ctx):
 def c14(ctx):
     drv = ctx.build()
     models.run_family(ctx, "crash_torn")
-    n, ops = (12, 10) if ctx.quick else (96, 14)
+    n, ops = (12, 10) if ctx.quick else (32, 12)
     outs = run_crash(ctx, drv, n, ops, ctx.seed + 90, torn="quick" if ctx.quick else "thorough", depth=2,
-                     deep_every=25 if ctx.quick else 5)
+                     deep_every=25 if ctx.quick else 12)
     stats = judge_crash(ctx, outs, "c14", "c14")
     crash_cov(ctx, stats, "every crash image of the C03 enumeration, and for every file with bytes written after its last "
                           "fsync (tracked from the fs hooks) the file cut back to {synced, synced+1, middle, written-1} "
